@@ -903,6 +903,32 @@ def r6_loops(facts, rep, ats):
     rep.floor("C12-R6", "loops in lexer functions", n, 3)
 
 
+def r10_forward_only(facts, rep, rule="C12-R10"):
+    rep.rule(rule, "the lexer reads the text forwards only: no function of the lexer slices or indexes the source with an open "
+                   "start (`..x`, `..=x`, `..`), so what a token is depends on the text from its start on and never on what "
+                   "stands before it (`-2` is the same token after `,` as after `(`; the literal shapes of C07-R5 are lexed "
+                   "alone and stand for every context)")
+    n = 0
+    bad = []
+    for b in lexer_bodies(facts):
+        for blk, t, sp, name in b.calls():
+            m = name.rsplit("::", 1)[-1]
+            on_str = ("impl str" in name or "for str" in name or name.startswith("core::str::") or "std::ops::Index" in name or "SliceIndex" in name)
+            if not on_str or m not in ("get", "index", "get_unchecked", "split_at", "get_mut", "index_mut") or len(t["args"]) < 2:
+                continue
+            n += 1
+            if m == "split_at":
+                bad.append((b, sp, "split_at (the part before the position is looked at)"))
+                continue
+            for l in flow.slice_back(b, t["args"][1], through_agg=True):
+                if l[0] == "agg" and any(w in l[1] for w in ("RangeTo", "RangeFull")):
+                    bad.append((b, sp, "a slice with an open start (%s)" % l[1].rsplit("::", 1)[-1]))
+    for b, sp, what in bad[:4]:
+        rep.ob(rule, "look-behind:%s" % b.path, False, "%s takes %s of the source: the token depends on the text before it" % (b.path, what), b.site(sp))
+    rep.ob(rule, "forward-only", not bad, "%d slice / index operations on the text in the lexer, %s with an open start" % (n, "none" if not bad else len(bad)))
+    rep.floor(rule, "slice / index operations on the text in the lexer", n, 2)
+
+
 def r9_same_text(facts, rep):
     rep.rule("C12-R9", "the text that is parsed is the text that is kept: in the summary of query::parse the string handed to "
                        "Parser::new and the `source` stored in the result (against which every span is read back) are both the "
@@ -962,6 +988,7 @@ def run(fx, rep, tier):
         r6_loops(facts, sub, chars.atoms(consts, preds))
         if cfg == "dev":
             r9_same_text(facts, sub)
+            r10_forward_only(facts, sub)
             # the grammar relies on the parser's primitives doing exactly what they say (a stale count that `skip` does not
             # honour loses tokens at the end of the input), and a slice of the text off a character boundary is a crash
             from . import c06, c11
